@@ -175,6 +175,29 @@ func Depth() int {
 // Actor tags subsequent heap accesses with actor i (footprint tracking, engine only). [intrinsic]
 func Actor(i int) { actor = i }
 
+// AssertDepths checks the DEPTH events of a log: mode 0 = all equal from the 2nd sample on,
+// mode 1 = constant increments from the 2nd increment on. [intrinsic]
+func AssertDepths(l, mode, id int) {
+	var ds []int
+	for _, e := range Logs[l] {
+		if e.Tag == DEPTH {
+			v, _ := strconv.Atoi(e.Val)
+			ds = append(ds, v)
+		}
+	}
+	ok := true
+	if mode == 0 {
+		for j := 2; j < len(ds); j++ {
+			ok = ok && ds[j] == ds[1]
+		}
+	} else {
+		for j := 3; j < len(ds); j++ {
+			ok = ok && ds[j]-ds[j-1] == ds[2]-ds[1]
+		}
+	}
+	Assert(ok, id)
+}
+
 // AssertDisjointFootprints: no heap cell written under one actor was touched under another
 // (engine only; natively a no-op). [intrinsic]
 func AssertDisjointFootprints(id int) {}
